@@ -31,7 +31,17 @@ func scalarAsMatrix(r *Result) *Result {
 // extraSeries: unrelated series the query cannot match (metric names the generators never use).
 func extraSeries(seed int64, w gen.Window) []store.Series {
 	r := rand.New(rand.NewSource(seed))
-	return gen.GenData(r, w, gen.DataOpt{MinSeries: 1, MaxSeries: 6, Metrics: []string{"zz1", "zz2"}, PStale: 0.02})
+	data := gen.GenData(r, w, gen.DataOpt{MinSeries: 1, MaxSeries: 6, Metrics: []string{"zz1", "zz2"}, PStale: 0.02})
+	// no label of the generators' universe: a selector without a metric name must not match them
+	for i := range data {
+		l := data[i].L
+		for j := 0; j+1 < len(l); j += 2 {
+			if l[j] != "__name__" {
+				l[j] = "z" + l[j]
+			}
+		}
+	}
+	return data
 }
 
 func opStore(c *Case, op Op) (*store.Store, []store.Series) {
@@ -202,6 +212,9 @@ func multiMain(x *X) {
 	c := x.C
 	base := c.Ops[0]
 	prop := c.Prop
+	if p, ok := c.Var["prop"].(string); ok {
+		prop = p
+	}
 	shape := Shape(base.Q)
 	var bo *Outcome
 	for i, op := range c.Ops {
@@ -367,6 +380,7 @@ func GenOptim(t *testing.T, r *rand.Rand, prop, tier string, _ *atomic.Int64) *C
 		op.Tag = os
 		c.Ops = append(c.Ops, op)
 	}
+	c.Var = map[string]any{"prop": "C09"}
 	return c
 }
 
@@ -402,5 +416,6 @@ func GenConfig(t *testing.T, r *rand.Rand, prop, tier string, _ *atomic.Int64) *
 		}
 		c.Ops = append(c.Ops, op)
 	}
+	c.Var = map[string]any{"prop": "C11"}
 	return c
 }
